@@ -655,6 +655,16 @@ def call(f, args=(), kws=()):
     if f == G('np.diff') and len(args) == 1 and len(kws) == 1 and kws[0][0] == 'kw' and kws[0][1] in ('append', 'prepend'):
         parts = (args[0], kws[0][2]) if kws[0][1] == 'append' else (kws[0][2], args[0])
         return ('call', f, (_cat(parts),), ())
+    # dict(zip(A, range(len(B)))) with B == A or A == B[<column>] (a column of the table B has the table's length):
+    # the position of every item of A - also written {v: i for i, v in enumerate(A)}
+    if f == G('dict') and nokw and len(args) == 1 and args[0][0] == 'call' and args[0][1] == G('zip') and len(args[0][2]) == 2 \
+            and not args[0][3]:
+        a, r = args[0][2]
+        if r[0] == 'call' and r[1] == G('range') and len(r[2]) == 1 and not r[3] and r[2][0][0] == 'call' and r[2][0][1] == G('len') \
+                and len(r[2][0][2]) == 1:
+            b = r[2][0][2][0]
+            if b == a or (a[0] == 'sub' and a[1] == b and a[2][0] == 'c'):
+                return ('call', G('$positions'), (a,), ())
     # functools.reduce(f, iter(xs), init) folds xs  (a bare `reduce` is functools.reduce: Python 3 has no other)
     if f == G('reduce'):
         f = G('functools.reduce')
